@@ -31,6 +31,8 @@ OPTSETS = [
     # the caller supplies the key and/or the version in a header dict: still one of each in the request
     {"header": {"Sec-WebSocket-Key": "AQIDBAUGBwgJCgsMDQ4PEA==", "X-A": "1"}}, {"header": {"Sec-WebSocket-Version": "13"}},
     {"header": {"X-B": "2", "Sec-WebSocket-Version": "13", "Sec-WebSocket-Key": "EA8ODQwLCgkIBwYFBAMCAQ=="}},
+    # an explicit origin together with suppress_origin: no Origin header
+    {"origin": "https://app.test", "suppress_origin": True}, {"origin": "https://app.test", "suppress_origin": True, "host": "h.override:81"},
     # repeated field names and names differing only in case are the caller's lines all the same
     {"header": ["X-Forwarded-For: a", "Via: v", "X-Forwarded-For: b"]}, {"header": {"X-Tag": "one", "x-tag": "two"}},
     {"header": ["Sec-WebSocket-Extensions: permessage-deflate", "X-Z: 1", "Sec-WebSocket-Extensions: x-custom"], "subprotocols": ["chat"]},
